@@ -48,6 +48,7 @@ THEOREMS = [
     # constant folding
     "fold_eq_eval_unsound", "fold_rem_zero_panics", "fold_overflow_panics",
     "fold_cast_out_of_range_unknown", "const_of_get0", "foldBin_sound", "foldUn_sound",
+    "fold_eq_eval_partial", "arith_strict", "cmp_strict", "concat_strict", "neg_strict", "not_strict",
 ]
 
 # The witnesses of the `…_unsound` theorems, as requests (replayed on the implementation).
